@@ -274,10 +274,16 @@ def rule_bounds(prog: Program, col: Collector) -> None:
         if k not in keys:
             raise AnchorMissing(f"BOUNDS has no entry {k!r}")
     struct: StructInfo | None
+    struct_error = None
     try:
         struct = derive_struct(prog)
     except AnchorMissing:
         struct = None
+    except AnalysisError as e:
+        # the table writer is no longer in the recognised family: the cached computers cannot be interpreted, but the
+        # cache-hygiene obligations (B9) are independent of it and are still evaluated below
+        struct = None
+        struct_error = str(e)
     analysed: dict[str, Computer] = {}
     for key, ref, kv, entry in comps:
         analysed[key] = analyse_computer(prog, key, ref, kv, struct)
@@ -313,6 +319,8 @@ def rule_bounds(prog: Program, col: Collector) -> None:
         _check_table(ob, prog, struct, analysed)
     if pid == "C03":
         _check_siblings(ob, prog, sa, struct, comps)
+    if struct_error is not None:
+        raise AnalysisError(struct_error)
     if pid == "C04":
         _check_sam_registry(ob, prog, comps, analysed, sam, sa)
     if pid in ("C08", "C01", "C04"):
@@ -709,11 +717,17 @@ def _check_siblings(ob: _Ob, prog: Program, sa: list[Computer], struct: StructIn
                             "any difference in candidate sets, columns, reductions or order makes the two game classes disagree", rule="B8")
     # ---- B9
     col.rule("B9", "the memoised coalition structure is keyed by n only, pure, and never mutated by a caller", 4)
-    if struct is None:
+    sref = struct.ref if struct is not None else prog.find_func("bounds._get_sub_super_coalition_structure")
+    if sref is None:
         raise AnchorMissing("bounds._get_sub_super_coalition_structure not found")
-    sref = struct.ref
-    col.check(struct.cached, sref.where(), sref.short, "decorated with functools.cache / lru_cache", construct="not-cached",
-              necessity="(performance only) - recorded so that the purity obligations below are known to matter", rule="B9")
+    if struct is not None:
+        is_cached = struct.cached
+    else:
+        is_cached = any(d.split("(")[0].split(".")[-1] in ("cache", "lru_cache") for d in sref.decorators()) or any(
+            isinstance(d, ast.Call) and getattr(d.func, "attr", getattr(d.func, "id", "")) == "lru_cache" for d in sref.node.decorator_list)
+    col.check(is_cached, sref.where(), sref.short, "decorated with functools.cache / lru_cache", construct="not-cached",
+              necessity="a hand-rolled memo (module-level list/dict) instead of functools.cache is keyed by whatever the author remembered to key it by: "
+              "the structure of one player count must never be served for another", rule="B9")
     sft = fterms(prog, sref)
     bad_globals = []
     for ev in sft.events:
